@@ -23,7 +23,7 @@ META = {
             "at once <= max_connections), IsoHistory (each connection's history is a prefix of its solo history), "
             "NoStarvation (a connection beyond the limit is served later, nothing is stuck or dropped).  "
             "Interleavings from TLC's state graph (edge cover in quick, more paths in thorough) are forced step by "
-            "step onto the real _serve_socket_threaded + real RpcServer + real AF_UNIX sockets + real "
+            "step onto the real serve_unix(threaded=True, max_connections=..) -> _serve_socket_threaded + real RpcServer + real AF_UNIX sockets + real "
             "RpcConnection clients by the deterministic scheduler; every execution's step trace is validated by TLC "
             "against ConnIsoTrace.tla and its observable history (serve begin/end, dispatches, per-connection "
             "results vs a real solo run) is judged by TLC with ConnIsoMonitor.tla.",
@@ -44,6 +44,8 @@ P, X = ["pt", "t", "c"], ["xe", "e", "c"]
 W2_STRAY = [[["pr", "t", "u"], ["u"]], [["xr", "c", "u"], ["u", "u"]], [["pr", "t", "u"], []], [["xr", "e", "u"], ["pr", "c", "u"]]]
 W2_QUICK = [[P, P], [X, X], [P, X], [["u"], ["u", "u"]], [["u", "pt", "c"], ["xe", "c"]], [[], ["u"]]] + W2_STRAY
 W3_QUICK = [[["u"], ["u"], []]]
+# g: the connection ends abnormally (RpcServer.serve raises out of the per-connection thread)
+W2_ABEND = [[["g"], ["u"]], [["u", "g"], ["pt", "c"]]]
 W2_MORE = [[["pr", "c", "pt", "c"], ["xe", "c", "u"]], [["u", "u"], P], [["pt", "t", "t", "c"], ["xe", "e", "e", "c"]], [["u", "xe", "c", "u"], ["pt", "c", "u"]], [[], []],
            [["pt", "c", "pt", "c"], ["pt", "t", "c"]]]
 W3_MORE = [[["u"], ["u"], ["u"]], [[], ["pt", "c"], ["u"]], [["pt", "c"], ["pt", "c"], ["xe", "c"]]]
@@ -123,12 +125,12 @@ def run(ctx: Ctx) -> None:
         if bad.violated != "IsoHistory":
             raise MachineryError(f"the shared-{name} design should violate IsoHistory, TLC says {bad.violated} {bad.error}")
     if not ctx.quick:
-        kw = _wrapper(wd, "MC_ConnBig", "ConnIso", "(" + _worlds(W2_QUICK + W2_MORE, [0, 1, 2]) + " \\cup "
+        kw = _wrapper(wd, "MC_ConnBig", "ConnIso", "(" + _worlds(W2_QUICK + W2_ABEND + W2_MORE, [0, 1, 2]) + " \\cup "
                       + _worlds(W3_QUICK + W3_MORE, [0, 1, 2]) + ")")
         r = run_tlc(wd, "MC_ConnBig", render_cfg(constants={"SharedState": False}, invariants=INVS, **kw), workers=8, timeout=1500)
-        ctx.add_tlc(f"ConnIso exhaustive: {len(W2_QUICK + W2_MORE)} two-connection and {len(W3_QUICK + W3_MORE)} three-connection script sets x max_connections {{None,1,2}}", r)
+        ctx.add_tlc(f"ConnIso exhaustive: {len(W2_QUICK + W2_ABEND + W2_MORE)} two-connection and {len(W3_QUICK + W3_MORE)} three-connection script sets x max_connections {{None,1,2}}", r)
         require_ok(r, "ConnIso.tla (intended design) must satisfy the C41 clauses")
-    gw2 = W2_QUICK if ctx.quick else W2_QUICK + W2_MORE[:3]
+    gw2 = W2_QUICK + W2_ABEND if ctx.quick else W2_QUICK + W2_ABEND + W2_MORE[:3]
     gw3 = W3_QUICK if ctx.quick else W3_QUICK + W3_MORE[:2]
     kw = _wrapper(wd, "G_Conn", "ConnIso", "(" + _worlds(gw2, [0, 1, 2]) + " \\cup " + _worlds(gw3, [1, 2]) + ")")
     gr, g = dump_graph(wd, "G_Conn", render_cfg(constants={"SharedState": False}, invariants=INVS, **kw), name="gconn",
@@ -162,13 +164,13 @@ def run(ctx: Ctx) -> None:
             return key(s, lab, d)
         return "rest"
 
-    paths = g.edge_cover_paths(ctx.rng, max_paths=80 if ctx.quick else 600, key=key_stray, max_len=200)
+    paths = g.edge_cover_paths(ctx.rng, max_paths=80 if ctx.quick else 400, key=key_stray, max_len=200)
     ctx.extra["schedules_covering_steps_inside_a_stray_window"] = len(paths)
-    paths += g.edge_cover_paths(ctx.rng, max_paths=(220 if ctx.quick else 2200) - len(paths), key=key, max_len=200)
+    paths += g.edge_cover_paths(ctx.rng, max_paths=(220 if ctx.quick else 1500) - len(paths), key=key, max_len=200)
     ctx.extra["schedules_from_edge_cover"] = len(paths)
     ctx.extra["edge_classes"] = len({key(g.state(u), lab, g.state(v)) for u, es in g.out.items() for lab, v in es})
     if not ctx.quick:
-        paths += g.random_paths(ctx.rng, 1200, 200)
+        paths += g.random_paths(ctx.rng, 500, 200)
     ctx.rule = ("case = one interleaving (sequence of single-thread steps loop / client c / handler c) of 2-3 "
                 "connections, taken from a path of TLC's state graph, forced on the real threads and completed to the "
                 "end; non-trivial = distinct schedules in which >= 2 connections were accepted")
@@ -224,10 +226,22 @@ def run(ctx: Ctx) -> None:
         res, cs = r["res"], sorted(r["scripts"])
         observations.append({"case": {"mx": r["mx"], "n": n_of(r)},
                              "obs": {"ev": res["mon"], "obs": [res["obs"][c] for c in cs], "solo": [r["solo"][c] for c in cs],
-                                     "tags": [W.tag_of(c) for c in cs],
+                                     "tags": [W.tag_of(c) for c in cs], "entry": res["entry"].get("mx", -1),
                                      "done": [bool(res["done"][c]) and c not in res["client_errors"] for c in cs]}})
+    # the TCP entry point shares the accept loop; what it hands to the loop is observed, the loop is run over AF_UNIX
+    tcp = {m: W.probe_tcp_entry(m) for m in (0, 1, 2)}
+    ctx.extra["serve_tcp_hands_to_accept_loop"] = tcp
+    n_real = len(observations)
+    for m, got in tcp.items():
+        observations.append({"case": {"mx": m, "n": 0}, "obs": {"ev": [], "obs": [], "solo": [], "tags": [], "done": [],
+                                                              "entry": got.get("mx", -1)}})
     bad_obs = table.judge(ctx, "conc", "ConnIsoMonitor", observations)
     for i, clauses in bad_obs:
+        if i >= n_real:
+            m = (0, 1, 2)[i - n_real]
+            for c in clauses:
+                ctx.violation(c, {"entry": "serve_tcp", "max_connections": m or None}, {"handed_to_accept_loop": tcp[m]})
+            continue
         r = runs[i]
         res = r["res"]
         det = {"scripts": r["scripts"], "max_connections": r["mx"] or None, "schedule": r["steps"],
@@ -235,7 +249,7 @@ def run(ctx: Ctx) -> None:
                "client_errors": res["client_errors"], "thread_errors": res["thread_errors"], "hang": res["hang"],
                "stuck": res["stuck"], "tlc_trace": r.get("tlc")}
         for c in clauses:
-            ctx.violation(c, {"max_connections": r["mx"] or None, "connections": n_of(r),
+            ctx.violation(c, {"entry": "serve_unix", "max_connections": r["mx"] or None, "connections": n_of(r),
                               "ops": sorted({op for s in r["scripts"].values() for op in s})}, det)
     ctx.traces_validated = ok
     ctx.assume("interleavings are explored at park-point granularity (threading primitives of _transport, blocking "
